@@ -1,2 +1,3 @@
 -- Root of the `LettreVerif` library (models, specifications, proofs, property theorems).
 import LettreVerif.Props.C03
+import LettreVerif.Props.C15
